@@ -358,7 +358,7 @@ func checkC09(r *Run) {
 			if cs.State == nil || !cs.HasEdge || !c.isClosedChanOf(cs.State.Chan, m.Cli) {
 				continue
 			}
-			reach := ReachableFromBlock(f, cs.Edge.B.Succs[cs.Edge.K], PathQ{BlockInstr: isDial})
+			reach := ReachableViaEdge(f, ifEdge{cs.Edge.B, cs.Edge.K}, PathQ{BlockInstr: isDial})
 			for in := range reach {
 				k, isCall := in.(*ssa.Call)
 				if !isCall || errM == nil || c.StaticCalleeOf(&k.Call) != errM || c.Resolve(k.Call.Args[0]) != m.Cli {
@@ -366,7 +366,7 @@ func checkC09(r *Run) {
 				}
 				for _, e := range nilEdges(f, k) {
 					// nil edge: returns without redial
-					r2 := ReachableFromBlock(f, e.B.Succs[e.K], PathQ{})
+					r2 := ReachableViaEdge(f, ifEdge{e.B, e.K}, PathQ{})
 					redial, returns := false, false
 					for x := range r2 {
 						if isDial(x) {
@@ -377,7 +377,7 @@ func checkC09(r *Run) {
 						}
 					}
 					// non-nil edge: must go on to redial
-					r3 := ReachableFromBlock(f, e.B.Succs[1-e.K], PathQ{})
+					r3 := ReachableViaEdge(f, ifEdge{e.B, 1-e.K}, PathQ{})
 					redial2 := false
 					for x := range r3 {
 						if isDial(x) {
@@ -729,8 +729,8 @@ func checkC08(r *Run) {
 					val = env[a]
 				} else if _, isReach := func() (ssa.Instruction, bool) {
 					// a condition unrelated to the decision (e.g. PingInterval > 0 after Retry): resubscribe unreachable from both sides?
-					r0 := ReachableFromBlock(f, b.Succs[0], PathQ{BlockInstr: func(i ssa.Instruction) bool { return i == ssa.Instruction(m.Dial) }})
-					r1 := ReachableFromBlock(f, b.Succs[1], PathQ{BlockInstr: func(i ssa.Instruction) bool { return i == ssa.Instruction(m.Dial) }})
+					r0 := ReachableViaEdge(f, ifEdge{b, 0}, PathQ{BlockInstr: func(i ssa.Instruction) bool { return i == ssa.Instruction(m.Dial) }})
+					r1 := ReachableViaEdge(f, ifEdge{b, 1}, PathQ{BlockInstr: func(i ssa.Instruction) bool { return i == ssa.Instruction(m.Dial) }})
 					if !r0[m.Resub] && !r1[m.Resub] {
 						return nil, true
 					}
